@@ -99,6 +99,7 @@ class Reference:
         self.C0 = None
         self.calls = None
         self.error = None
+        self.mismatch = None
 
 
 def reference_run(w, storage="dict"):
@@ -115,9 +116,33 @@ def reference_run(w, storage="dict"):
         ref.functions = {o: res[o].function for o in res}
         ref.calls = list(sim.calls)
         ref.C0 = collections.Counter(c.key() for c in sim.calls)
+        ref.mismatch = independent_mismatch(w, ref.R0)
     except Exception as e:  # noqa: BLE001 - refused candidates are discarded (DESIGN 2.5)
         ref.error = e
     return ref
+
+
+def independent_mismatch(w, R0):
+    """The sequential reference is a run of the same tree; sim/interp.py reads the workload without pipefunc.
+    Returns None if they agree (or the workload uses something the interpreter does not model), else a detail dict."""
+    from sim import interp
+
+    try:
+        exp = interp.expected_outputs(w)
+    except interp.Unsupported:
+        return None
+    for o in exp:
+        if o in R0 and exp[o] != R0[o]:
+            return {"output": o, "sequential_run": repr(R0[o])[:300], "independent_reading": repr(exp[o])[:300]}
+    return None
+
+
+def report_mismatch(ref, V):
+    m = getattr(ref, "mismatch", None)
+    if m:
+        V("independent", "sequential-run-differs-from-independent-reading-of-the-workload", m)
+        return True
+    return False
 
 
 def expected_call_counts(w):
